@@ -446,6 +446,49 @@ func (c *cmp) findChecks(rng *rand.Rand, res *schema.Resolver, pairs int) {
 	}
 }
 
+// implicitIO looks up the input and output of every rpc and action, written or not
+// (Find creates an absent one on demand): the node returned must belong to that very rpc
+// or action - its Parent, its Path and the way back through ".." - also when the rpc or
+// action is one of several copies of a grouping or augment.
+func (c *cmp) implicitIO() {
+	var all []*schema.X
+	for x := range c.x2e {
+		if x.Kind == "rpc" || x.Kind == "action" {
+			all = append(all, x)
+		}
+	}
+	sort.Slice(all, func(i, j int) bool { return all[i].Path() < all[j].Path() })
+	seen := map[*yang.Entry]string{}
+	for _, x := range all {
+		e := c.x2e[x]
+		for _, io := range []string{"input", "output"} {
+			func() {
+				defer func() {
+					if rec := recover(); rec != nil {
+						c.bad(x, "find-panic", "Find(%s) from %s: %v", io, x.Path(), rec)
+					}
+				}()
+				c.Lookups++
+				got := e.Find(io)
+				switch {
+				case got == nil:
+					c.bad(x, "find-io", "Find(%s) from %s returned nothing", io, x.Path())
+				case got.Parent != e:
+					c.bad(x, "find-io", "Find(%s) from %s returned a node whose Parent is %s", io, x.Path(), got.Parent.Path())
+				case got.Path() != e.Path()+"/"+io:
+					c.bad(x, "find-io", "Find(%s) from %s returned %s", io, x.Path(), got.Path())
+				case got.Find("..") != e:
+					c.bad(x, "find-io", "Find(..) from the %s of %s does not lead back", io, x.Path())
+				case seen[got] != "":
+					c.bad(x, "find-io", "the %s of %s is the node already returned for %s", io, x.Path(), seen[got])
+				default:
+					seen[got] = x.Path()
+				}
+			}()
+		}
+	}
+}
+
 // Case is the replayable form of one generated set.
 type Case struct {
 	Files []File `json:"files"`
@@ -565,6 +608,7 @@ func Run(j *job.Job, s *job.Sink) {
 			}
 			if len(c.out) == 0 {
 				c.findChecks(rng, res, 60)
+				c.implicitIO()
 			}
 		}()
 		s.Count("nodes_compared", int64(c.Nodes))
